@@ -187,6 +187,11 @@ def r2_store_routes(ctx, rule="C06.R2", strings_only=False):
             key = "%s:%s:store(%s)" % (rule, f.name, what)
             loc = "%s:%s" % (f.file, e.line)
             bad = [p for p in producers if not _producer_converts(p, prog)]
+            # a variable of the generator's own making whose type is taken from the stored expression
+            # itself (the value a SELECT CASE selects on, the step of a FOR) needs no conversion: its
+            # type *is* the static type of the value (which is the dynamic tag by C06.R1)
+            if e.kind == "gen" and len(e.args) > 1:
+                bad = [p for p in bad if not _variable_typed_by_value(e.args[1], p)]
             if strings_only:
                 # arithmetic results are numeric; the checker rejects string FOR counters
                 bad = [p for p in bad if not (p.kind == "push" and p.instr in ARITH_INSTR)]
@@ -231,6 +236,25 @@ def r2_store_routes(ctx, rule="C06.R2", strings_only=False):
                    "target's type)" % mod.upper())
     ctx.analysed_units(rule, store_emitters=sorted(prog.fns[s].name for s in store_fns), sites=n)
     ctx.require(rule, 10)
+
+
+def _variable_typed_by_value(target, producer):
+    """The store target is a name built by a call one of whose arguments is the qualifier of
+    `X.expression_type()` (looked at through opt_qualifier / unwrap_or(.., fallback) / refs), X being
+    the very expression the producer evaluates uncast."""
+    if producer.kind != "EXPR" or len(producer.args) < 2:
+        return False
+    x = mir.strip_all(producer.args[1])
+    t = mir.strip_all(target)
+    if t[0] != "call":
+        return False
+    for a in t[2]:
+        a = mir.strip_all(a)
+        while a[0] == "call" and a[2] and a[1].split("::")[-1] in ("unwrap_or", "opt_qualifier"):
+            a = mir.strip_all(a[2][0])
+        if a[0] == "call" and a[1].split("::")[-1] == "expression_type" and a[2] and mir.strip_all(a[2][0]) == x:
+            return True
+    return False
 
 
 def _type_gated_casts(prog, f, evs):
